@@ -49,3 +49,10 @@ package dns
 //@   ensures ret0 >= 0 && s[ret0] < 128 ==> (forall k in ret0+1..len(s) :: s[k] == '\\')
 //@   ensures ret0 >= 0 && s[ret0] >= 128 ==> (exists w in 1..5 :: ret0 + w <= len(s) && (forall k in ret0+w..len(s) :: s[k] == '\\') && (forall k in ret0+1..ret0+w :: s[k] >= 128 && s[k] < 192))
 //@   pure
+
+// strings.Map has exactly one call site in the repository (CanonicalName) with the mapping A-Z -> a-z.
+// For input made of 7-bit octets only, the documented behaviour is the octet-wise image; for other input
+// Map decodes and re-encodes UTF-8 (invalid octets become U+FFFD), about which nothing is claimed.
+//@ extern strings.Map
+//@   ensures ascii: ascii7(s) ==> len(ret0) == len(s) && (forall k in 0..len(s) :: ret0[k] == lower(s[k]))
+//@   pure
